@@ -291,6 +291,15 @@ func runOSConf(binary string) *osconfResult {
 			code, clean := run(c.name, c.yaml, 0, marker)
 			r.check("binary-exit-status-"+c.name, code == c.want && clean, fmt.Sprintf("exit status %d (want %d), no survivors=%v", code, c.want, clean))
 		}
+		// a configured shutdown command that is still running (with a child of its own shell) when its
+		// time-out expires: SIGKILL follows the time-out, the stop does not wait for the command's children
+		{
+			marker := fmt.Sprintf("vhC%d", os.Getpid())
+			t0 := time.Now()
+			code, clean := run("stop-command-timeout", y("  a:\n    command: \"sleep 60\"\n    shutdown:\n      command: \"sleep 45; true\"\n      timeout_seconds: 1\n  b:\n    command: \"sleep 60\"\n  c:\n    command: \"sleep 60\"\n"), syscall.SIGTERM, marker)
+			el := time.Since(t0)
+			r.check("binary-stop-command-timeout-kill", code != -101 && el < 30*time.Second, fmt.Sprintf("exit status %d after %v (stop command sleeps 45 s, time-out 1 s), no survivors=%v", code, el.Round(time.Millisecond), clean))
+		}
 		for _, sg := range []syscall.Signal{syscall.SIGTERM, syscall.SIGINT, syscall.SIGHUP} {
 			marker := fmt.Sprintf("vhS%d%d", os.Getpid(), int(sg))
 			code, clean := run(fmt.Sprintf("signal-%d", int(sg)), y("  a:\n    command: \"sleep 30 & sleep 30 & wait\"\n  b:\n    command: \"sleep 30\"\n"), sg, marker)
